@@ -391,15 +391,16 @@ func (s *Sim) learnMail(m world.Mail, st *Step) {
 	}
 	t := &MailTok{To: append([]string(nil), m.Email.To...), IssuedAt: st.Rec.Now, B: -1}
 	switch {
-	case strings.HasSuffix(u.Path, "/confirm"):
+	case strings.Contains(us, "confirm?cnf="):
 		t.Kind, t.Token = "confirm", u.Query().Get("cnf")
-	case strings.HasSuffix(u.Path, "/recover/end"):
+	case strings.Contains(us, "recover/end?token="):
 		t.Kind, t.Token = "recover", u.Query().Get("token")
-	case strings.HasSuffix(u.Path, "/email/verify/end"):
+	case strings.Contains(us, "/email/verify/end?token="):
 		t.Kind, t.Token = "ev", u.Query().Get("token")
-		parts := strings.Split(u.Path, "/")
-		if len(parts) >= 5 {
-			t.EVKind = parts[len(parts)-4]
+		if strings.Contains(us, "2fa/totp/") {
+			t.EVKind = "totp"
+		} else {
+			t.EVKind = "sms"
 		}
 		t.B = st.Act.B
 		t.Sid = st.Rec.CookiesOut[world.SidCookie]
